@@ -13,7 +13,8 @@ Class OrdLaws (A : Arith) := {
   le_nan_l : forall x y, isnan x = true -> le x y = false;
   le_nan_r : forall x y, isnan y = true -> le x y = false;
   lt_nan_l : forall x y, isnan x = true -> lt x y = false;
-  lt_nan_r : forall x y, isnan y = true -> lt x y = false }.
+  lt_nan_r : forall x y, isnan y = true -> lt x y = false;
+  finf_nn : isnan finf = false }.
 
 Section Laws.
   Context `{A : Arith} `{L : !OrdLaws A}.
